@@ -26,29 +26,33 @@ func Glob(pattern, input string, opts ...Option) bool {
 	for _, o := range opts {
 		o(&g)
 	}
+	// i and j are the next positions in pattern and input. star is the position
+	// of the most recent '*' in pattern (-1 if none yet) and mark is the input
+	// position up to which that '*' is currently assumed to extend.
 	i := 0
 	j := 0
-	asterisk := false
-	for i < len(pattern) {
-		if pattern[i] == '*' {
-			asterisk = true
+	star := -1
+	mark := 0
+	for j < len(input) {
+		if i < len(pattern) && pattern[i] == '*' {
+			star = i
+			mark = j
 			i++
-		} else {
-			match := pattern[i] == input[j]
-			if !asterisk && !match {
-				return false
-			}
-			if match {
-				i++
-			}
-			if asterisk && match {
-				asterisk = false
-			}
+		} else if i < len(pattern) && pattern[i] == input[j] {
+			i++
 			j++
-		}
-		if j >= len(input) {
-			break
+		} else if star >= 0 {
+			// mismatch: let the most recent '*' take one more character and retry
+			mark++
+			i = star + 1
+			j = mark
+		} else {
+			return false
 		}
 	}
-	return i == len(pattern) && (asterisk || j == len(input))
+	// the input is used up; whatever remains of the pattern must match the empty string
+	for i < len(pattern) && pattern[i] == '*' {
+		i++
+	}
+	return i == len(pattern)
 }
